@@ -80,6 +80,7 @@ type Op struct {
 	// role of the op for the oracles
 	Role string `json:"role,omitempty"` // "" | probe | followup | epilogue | unfaulted
 	ISN  int32  `json:"isn,omitempty"`  // invocation sequence number (0: harness assigns)
+	D    *DiamOp `json:"d,omitempty"`   // Diameter request (C07 / C08 engines)
 }
 
 type Trig struct {
